@@ -1,8 +1,72 @@
 (* C07 — Strand rotation is a structure-preserving relabelling.  Only property
-   theorems: each is closed by `exact` and followed by Print Assumptions. *)
+   theorems: each is closed by `exact` and followed by Print Assumptions.
+
+   Vocabulary (defined in Proofs/Rot*.v, independent of the rotation code):
+     wf sst            the depth-counter well-formedness of C06 over ( ) . +
+     aligned seq sst   the '+' entries of the sequence are exactly the '+' of the structure
+     good x            aligned (fst x) (snd x) /\ wf (snd x)
+     nstr sst          number of strands = 1 + number of '+'
+     rot_left          [x0; x1; ...] |-> [x1; ...; x0]
+     relabel n k       rotate_locus n k on every entry of a pair table
+     rot_iter k        k-fold rotate_complex_once (model of the loop in ComplexS.rotate) *)
 From Coq Require Import List NArith ZArith.
-From DSD Require Import Base.Str Base.Errors Model.ComplexUtils Model.Rotation Proofs.RotLoc.
+From DSD Require Import Base.Str Base.Errors Model.ComplexUtils Model.Rotation
+  Proofs.RotLoc Proofs.RotTree Proofs.RotPairs Proofs.RotOnce Proofs.RotOrbit.
 Import ListNotations.
+
+(* rotate_complex_once never fails on a well-formed aligned complex and returns a
+   well-formed aligned complex *)
+Theorem C07_rot_once_wf : forall seq sst, aligned seq sst -> wf sst ->
+  exists seq' sst', rotate_complex_once seq sst = Ok (seq', sst') /\ aligned seq' sst' /\ wf sst'.
+Proof. exact rot_once_wf_lemma. Qed.
+Print Assumptions C07_rot_once_wf.
+
+(* the first strand moves behind the others, content unchanged; the strand table is
+   cyclically shifted *)
+Theorem C07_rot_once_strands : forall s0 rest sst seq' sst',
+  Forall (fun x => x <> sPlus) s0 ->
+  rotate_complex_once (s0 ++ sPlus :: rest) sst = Ok (seq', sst') ->
+  seq' = rest ++ sPlus :: s0 /\
+  (s0 <> [] ->
+   make_strand_table_list sPlus seq' = rot_left (make_strand_table_list sPlus (s0 ++ sPlus :: rest))).
+Proof. exact rot_once_strands_lemma. Qed.
+Print Assumptions C07_rot_once_strands.
+
+(* a single strand is returned unchanged *)
+Theorem C07_rot_once_single_strand : forall seq sst seq' sst',
+  Forall (fun x => x <> sPlus) seq -> rotate_complex_once seq sst = Ok (seq', sst') ->
+  seq' = seq /\ sst' = sst.
+Proof. exact rot_once_seq_single. Qed.
+Print Assumptions C07_rot_once_single_strand.
+
+(* the pair table of the rotated structure is the cyclically shifted table of the
+   original with every locus (si, di) replaced by ((si + n - 1) mod n, di): the same
+   set of base pairs under the strand re-indexing *)
+Theorem C07_rot_once_pairs : forall seq sst, aligned seq sst -> wf sst ->
+  exists seq' sst' T,
+    rotate_complex_once seq sst = Ok (seq', sst') /\
+    make_pair_table cP [cD] sst = Ok T /\
+    make_pair_table cP [cD] sst' = Ok (relabel (length T) (-1) (rot_left T)).
+Proof. exact rot_once_pairs_lemma. Qed.
+Print Assumptions C07_rot_once_pairs.
+
+(* n rotations of an n-stranded complex restore the original *)
+Theorem C07_rot_once_order_n : forall x, good x -> rot_iter (nstr (snd x)) x = Ok x.
+Proof. exact rot_orbit. Qed.
+Print Assumptions C07_rot_once_order_n.
+
+(* rotation is a bijection on well-formed aligned complexes and keeps the number of strands *)
+Theorem C07_rot_once_injective : forall x y z, good x -> good y -> once x = Ok z -> once y = Ok z -> x = y.
+Proof. exact rot_once_injective. Qed.
+Print Assumptions C07_rot_once_injective.
+
+Theorem C07_rot_once_surjective : forall z, good z -> exists x, good x /\ once x = Ok z.
+Proof. exact rot_once_surjective. Qed.
+Print Assumptions C07_rot_once_surjective.
+
+Theorem C07_rot_once_strand_count : forall x y, good x -> once x = Ok y -> nstr (snd y) = nstr (snd x).
+Proof. exact rot_once_nstr. Qed.
+Print Assumptions C07_rot_once_strand_count.
 
 (* ComplexS.rotate_pairtable_loc: one turn sends strand si to (si + n - 1) mod n,
    turns add up, n turns are the identity, and it is the relabelling that one
